@@ -485,7 +485,8 @@ let () =
                       (String.concat "" (List.map (fun (n, _) -> " " ^ qs n) r.M.r_roots))
                       (String.concat "" (List.map (fun n -> " " ^ qs n) r.M.r_failed));
                     List.iter (fun (n, m) ->
-                        pr "(modelschema %s %s %s %s)\n" (q id) (qs n) (p_sattrs (M.model_schema_attrs m)) (p_atys (M.model_schema_ty m)))
+                        pr "(modelschema %s %s %s %s)\n" (q id) (qs n) (p_sattrs (M.model_schema_attrs m)) (p_atys (M.model_schema_ty m));
+                        pr "(class %s %s (tf_ok %s) (flat_ok %s) (rt_ok %s))\n" (q id) (qs n) (b01 (M.tf_ok m)) (b01 (M.flat_ok m)) (b01 (M.rt_ok m)))
                       r.M.r_roots)
              with Parse_error e -> pr "(programerror %s %s)\n" (q id) (q e))
         | _ -> ());
@@ -494,8 +495,11 @@ let () =
   let mismatch id kind impl model =
     incr nmis;
     pr "(mismatch %s %s (impl %s) (model %s))\n" (q id) kind impl model in
+  let opt_str = function Atom "nil" -> None | x -> Some (atom x) in
+  let p_opt = function None -> "nil" | Some s -> q s in
   if Sys.argv.(2) <> "-" then
-    read_lines Sys.argv.(2) (fun line ->
+   List.iter (fun casefile -> if Sys.file_exists casefile then
+    read_lines casefile (fun line ->
         if String.length line > 4 then
           let c1 = line.[1] in
           if c1 = 't' || c1 = 's' || c1 = 'f' then
@@ -509,6 +513,30 @@ let () =
                        let impl = p_sattrs (sattrs_of attrs) ^ " " ^ p_ty (ty_of objty) in
                        let model = p_sattrs (M.model_schema_attrs m) ^ " " ^ p_ty (M.TyObj (M.model_schema_ty m)) in
                        if impl = model then incr nmatch else mismatch (atom prog ^ "/" ^ atom root ^ "/schema") "schema" impl model)
+              | [List [Atom "strfn"; id; Atom fn; List args; List results]] ->
+                  (* text functions of package main probed through the verif hook (and strcase) *)
+                  let impl = String.concat " " (List.map (fun r -> p_opt (opt_str r)) results) in
+                  let a n = cstr (atom (List.nth args n)) in
+                  let model =
+                    match fn with
+                    | "comment" -> qs (M.to_single_line (a 0))
+                    | "snake" -> qs (M.snake_case (a 0))
+                    | "camel" -> qs (M.upper_camel (a 0))
+                    | "jsonname" -> qs (M.json_name (match args with [] -> None | _ -> Some (a 0)))
+                    | "pkgclause" -> qs (M.replace_package_name (a 0) (a 1))
+                    | "imports" ->
+                        (match args with
+                         | [List ov; List ops] ->
+                             let ov = List.map (function List [k; v] -> (cstr (atom k), cstr (atom v)) | x -> fail_sx "override" x) ov in
+                             let ops = List.map (function
+                                 | List [Atom "T"; t] -> M.OpWithType (cstr (atom t))
+                                 | List [Atom "P"; p; t] -> M.OpWithPackage (cstr (atom p), cstr (atom t))
+                                 | List [Atom "N"; t; p] -> M.OpPrepend (cstr (atom t), cstr (atom p))
+                                 | x -> fail_sx "imports op" x) ops in
+                             String.concat " " (List.map (function None -> "nil" | Some s -> qs s) (M.run_iops ov [] ops))
+                         | _ -> fail_sx "imports args" (List args))
+                    | _ -> fail_sx "strfn" (Atom fn) in
+                  if impl = model then incr nmatch else mismatch (atom id) ("text-" ^ fn) impl model
               | [List [Atom "to"; id; prog; root; src; target; result]] ->
                   (match root_of (atom prog) (atom root) with
                    | None -> incr nskip; pr "(nomodel %s)\n" (q (atom id))
@@ -534,6 +562,6 @@ let () =
                          | M.Ok (v, ds) -> "(ok " ^ p_gv v ^ " " ^ p_diags ds ^ ")" in
                        if impl = model then incr nmatch else mismatch (atom id) "from" impl model)
               | _ -> ()
-            with Parse_error e -> pr "(caseerror %s)\n" (q e));
+            with Parse_error e -> pr "(caseerror %s)\n" (q e))) (String.split_on_char ',' Sys.argv.(2));
   pr "(summary (matched %d) (mismatched %d) (nomodel %d))\n" !nmatch !nmis !nskip;
   close_out out
